@@ -276,10 +276,26 @@ def _(vm, a, ci):
 
 
 # ---- slices
-@path_rx(r'<impl \[.*?\]>::(len|is_empty|iter|iter_mut|first|last|first_mut|last_mut|get|get_mut|get_unchecked|get_unchecked_mut|contains|to_vec|split_first|split_last|as_ptr|as_ptr_range|into_vec|concat|join|sort|sort_by|sort_by_key|sort_unstable|sort_unstable_by|sort_unstable_by_key|reverse|split_at|starts_with|ends_with|windows|chunks|chunks_exact|swap|fill)')
+@path_rx(r'<impl \[.*?\]>::(len|is_empty|iter|iter_mut|first|last|first_mut|last_mut|get|get_mut|get_unchecked|get_unchecked_mut|contains|to_vec|split_first|split_last|as_ptr|as_ptr_range|into_vec|concat|join|sort|sort_by|sort_by_key|sort_unstable|sort_unstable_by|sort_unstable_by_key|reverse|split_at|starts_with|ends_with|windows|chunks|chunks_exact|swap|fill|eq_ignore_ascii_case)')
 def _(vm, a, ci):
     m = ci.method
     if m == 'into_vec': return Adt('Vec', 0, [vm.ref_get(vm.box_ptr(a[0]))])
+    if m == 'eq_ignore_ascii_case':
+        # [u8]: same length and bytewise equal after ASCII lower-casing (either side may be the byte view of a str)
+        from .stdcheck import P as _P
+        from .std_iter import drain
+        from . import chartab
+        def bytes_of(x):
+            if isinstance(x, SymStr): raise Unmodelled('byte view of an opaque symbolic string: eq_ignore_ascii_case')
+            if isinstance(x, BStr): return drain(vm, _P(vm, '<impl str>::bytes', x))
+            sl = slice_of(vm, x); return [D(vm, v) for v in vm.ref_get(sl.ref).items[sl.start:sl.end]]
+        xs, ys = bytes_of(a[0]), bytes_of(a[1])
+        if len(xs) != len(ys): return False
+        def wide(b): return b if isinstance(b, int) else (z3.ZeroExt(24, b) if b.size() == 8 else b)
+        for x, y in zip(xs, ys):
+            lx = chartab.case_map(vm, wide(x), True, True)[0]; ly = chartab.case_map(vm, wide(y), True, True)[0]
+            if not truth(vm, lx == ly): return False
+        return True
     s = slice_of(vm, a[0]) if not isinstance(a[0], (BStr, SymStr)) else a[0]
     if isinstance(s, BStr):       # &[u8] view of a str (as_bytes)
         if m == 'len': return s.nbytes()
@@ -492,7 +508,10 @@ for _c in ('HashMap', 'BTreeMap', 'HashSet', 'BTreeSet'):
         @path(f'{c}::entry')
         def _(vm, a, ci):
             hm = hmref(vm, a[0]); i = hmap_find(vm, hm, tyarg(ci), a[1])
-            return Adt('Entry', 0 if i is not None else 1, [a[0], a[1], i])
+            # Entry::Occupied(OccupiedEntry) | Entry::Vacant(VacantEntry): programs may match on the variant and use the payload
+            # std declares hash_map::Entry as { Occupied, Vacant } and btree_map::Entry as { Vacant, Occupied }
+            occ = i is not None; btree = c.startswith('BTree')
+            return Adt('Entry', (0 if occ else 1) if not btree else (1 if occ else 0), [Adt('OccupiedEntry' if i is not None else 'VacantEntry', 0, [a[0], a[1], i])])
 
         @path(f'{c}::values', f'{c}::values_mut', f'{c}::keys', f'{c}::iter', f'{c}::iter_mut')
         def _(vm, a, ci):
@@ -504,17 +523,50 @@ for _c in ('HashMap', 'BTreeMap', 'HashSet', 'BTreeSet'):
     _mk()
 
 
-@path('Entry::or_default', 'Entry::or_insert', 'Entry::or_insert_with')
+@path('Entry::or_default', 'Entry::or_insert', 'Entry::or_insert_with', 'Entry::or_insert_with_key', 'Entry::and_modify', 'Entry::key')
 def _(vm, a, ci):
-    e = a[0]; r, key, i = e.fields
+    e = a[0] if isinstance(a[0], Adt) and a[0].ty == 'Entry' else D(vm, a[0])
+    r, key, i = e.fields[0].fields
     hm = hmref(vm, r)
+    if ci.method == 'key': return Ref(Cell(key)) if i is None else Ref(r.cell, r.path + (('e', i, 0),))
+    if ci.method == 'and_modify':
+        if i is not None: vm.call_value(a[1], [Ref(r.cell, r.path + (('e', i, 1),))])
+        return e
     if i is None:
         if ci.method == 'or_default':
             vt = type_head(ci.selfty)[1][-1] if ci.selfty else ''
             v = call_trait(vm, vt, 'Default', 'default', [])
         elif ci.method == 'or_insert': v = a[1]
+        elif ci.method == 'or_insert_with_key': v = vm.call_value(a[1], [Ref(Cell(key))])
         else: v = vm.call_value(a[1], [])
         hm.entries.append([key, v]); i = len(hm.entries) - 1
     else:
         vm.drop_val(key)
+        if ci.method == 'or_insert': vm.drop_val(a[1])
     return Ref(r.cell, r.path + (('e', i, 1),))
+
+
+@path('VacantEntry::insert', 'VacantEntry::key', 'VacantEntry::into_key', 'VacantEntry::insert_entry')
+def _(vm, a, ci):
+    e = a[0] if isinstance(a[0], Adt) and a[0].ty == 'VacantEntry' else D(vm, a[0])
+    r, key, i = e.fields
+    if ci.method == 'key': return Ref(Cell(key))
+    if ci.method == 'into_key': return key
+    hm = hmref(vm, r)
+    hm.entries.append([key, a[1]]); i = len(hm.entries) - 1
+    if ci.method == 'insert_entry': return Adt('OccupiedEntry', 0, [r, vm.clone_val(key), i])
+    return Ref(r.cell, r.path + (('e', i, 1),))
+
+
+@path('OccupiedEntry::get', 'OccupiedEntry::get_mut', 'OccupiedEntry::into_mut', 'OccupiedEntry::key', 'OccupiedEntry::insert', 'OccupiedEntry::remove', 'OccupiedEntry::remove_entry')
+def _(vm, a, ci):
+    e = a[0] if isinstance(a[0], Adt) and a[0].ty == 'OccupiedEntry' else D(vm, a[0])
+    r, key, i = e.fields
+    hm = hmref(vm, r); m = ci.method
+    if m in ('get', 'get_mut', 'into_mut'): return Ref(r.cell, r.path + (('e', i, 1),))
+    if m == 'key': return Ref(r.cell, r.path + (('e', i, 0),))
+    if m == 'insert':
+        old = hm.entries[i][1]; hm.entries[i][1] = a[1]; return old
+    ent = hm.entries.pop(i)
+    if m == 'remove': vm.drop_val(ent[0]); return ent[1]
+    return tup(ent[0], ent[1])
